@@ -216,6 +216,9 @@ SubCode(cp, line, ic, rp, all, off) ==
 
 (* ---- commands ------------------------------------------------------------------ *)
 RangeText(ed, beg, end) == JoinLines(SubSeq(Lines(ed), beg + 1, Min2(end, NLines(ed))))
+(* the lines of [beg, end) that exist, each with its newline *)
+PrintRange(ed, beg, end) == LET cnt == Min2(end, NLines(ed)) - beg IN
+                            IF cnt <= 0 THEN <<>> ELSE [i \in 1..cnt |-> Lines(ed)[beg + i] \o <<NL>>]
 Fail(ed) == [ed EXCEPT !.ret = 1]
 Ok(ed)   == [ed EXCEPT !.ret = 0]
 ClampRow(r, n) == Max2(0, Min2(n - 1, r))     \* the current line never becomes negative
@@ -288,7 +291,7 @@ ExStep(ed0, c) ==
       [] k = "p" ->
            LET r == Region(ed0, c.loc)  ed == r.ed IN
            IF ~r.ok THEN Fail(ed)
-           ELSE Ok([ed EXCEPT !.out = ed.out \o [i \in 1..(Min2(r.end, NLines(ed)) - r.beg) |-> Lines(ed)[r.beg + i] \o <<NL>>],
+           ELSE Ok([ed EXCEPT !.out = ed.out \o PrintRange(ed, r.beg, r.end),
                               !.row = Max2(r.beg, r.end - 1)])
       [] k = "=" ->
            LET r == Region(ed0, c.loc)  ed == r.ed IN
@@ -306,7 +309,7 @@ ExStep(ed0, c) ==
            IN IF c.loc = <<>> /\ e0.row >= n0 THEN Fail(e0)
               ELSE LET r == Region(e0, c.loc)  ed == r.ed IN
                    IF ~r.ok THEN Fail(ed)
-                   ELSE Ok([ed EXCEPT !.out = ed.out \o [i \in 1..(Min2(r.end, NLines(ed)) - r.beg) |-> Lines(ed)[r.beg + i] \o <<NL>>],
+                   ELSE Ok([ed EXCEPT !.out = ed.out \o PrintRange(ed, r.beg, r.end),
                                       !.row = Max2(r.beg, r.end - 1)])
       [] k = "s" ->
            LET r == Region(ed0, c.loc)  ed == r.ed IN
